@@ -9,14 +9,17 @@ and `x` no longer occurs.  Used by `Theorems/C09Sem.lean`.
 namespace Rscel
 namespace SpecSubst
 
+variable {B : Builtins}
+
 /-! ### `substIdent` on the constructors of the fragment -/
 
 theorem subst_member_nil (x : Str) (r : Prim) (sp : Span) (p : Prim) :
     substIdent x r (.member sp p []) = .member sp (substIdentPrim x r p) [] := by
   simp [substIdent, substIdentOps]
 
-theorem es_member_nil (sp : Span) (p : Prim) (env : Env) : evalSpec (.member sp p []) env = evalSpecPrim p env := by
-  rw [evalSpec]
+theorem es_member_nil (sp : Span) (p : Prim) (env : Env) : evalSpec B (.member sp p []) env = evalSpecPrim B p env := by
+  rw [evalSpec, evalSpecOps]
+  intros; simp_all
 
 /-- The `-`-run counts its minus signs alike before and after the substitution, unless the replacement is
     the bare primary `int i64Min`. -/
@@ -62,8 +65,8 @@ theorem mem_substCases {x : Str} {r : Prim} {c : MCase} :
 /-! ### the value is preserved -/
 
 theorem evalSpecList_subst {x : Str} {r : Prim} {env : Env} :
-    ∀ (es : List Ast), (∀ e ∈ es, evalSpec (substIdent x r e) env = evalSpec e env) →
-      evalSpecList (substIdentList x r es) env = evalSpecList es env
+    ∀ (es : List Ast), (∀ e ∈ es, evalSpec B (substIdent x r e) env = evalSpec B e env) →
+      evalSpecList B (substIdentList x r es) env = evalSpecList B es env
   | [], _ => by simp [substIdentList, evalSpecList]
   | e :: es, h => by
     simp only [substIdentList, evalSpecList]
@@ -71,13 +74,13 @@ theorem evalSpecList_subst {x : Str} {r : Prim} {env : Env} :
 
 theorem evalSpecCases_subst {x : Str} {r : Prim} {env : Env} (vs : Val) :
     ∀ (cases : List MCase),
-      (∀ sp p b, MCase.mk sp p b ∈ cases → evalSpec (substIdent x r b) env = evalSpec b env) →
+      (∀ sp p b, MCase.mk sp p b ∈ cases → evalSpec B (substIdent x r b) env = evalSpec B b env) →
       (∀ sp sp1 sp2 op e b, MCase.mk sp (.cmp sp1 sp2 op e) b ∈ cases →
-        evalSpec (substIdent x r e) env = evalSpec e env) →
-      evalSpecCases (substIdentCases x r cases) vs env = evalSpecCases cases vs env
+        evalSpec B (substIdent x r e) env = evalSpec B e env) →
+      evalSpecCases B (substIdentCases x r cases) vs env = evalSpecCases B cases vs env
   | [], _, _ => by simp [substIdentCases, evalSpecCases]
   | .mk sp p b :: rest, harm, hcmp => by
-    have hp : evalSpecPat (substIdentPat x r p) vs env = evalSpecPat p vs env := by
+    have hp : evalSpecPat B (substIdentPat x r p) vs env = evalSpecPat B p vs env := by
       cases p with
       | any _ => simp [substIdentPat, evalSpecPat]
       | type _ _ _ => simp [substIdentPat, evalSpecPat]
@@ -93,8 +96,8 @@ theorem evalSpecCases_subst {x : Str} {r : Prim} {env : Env} (vs : Val) :
     not the bare token `int i64Min`, which is not an expression of its own — see `negCount`), the tree with
     `r` in place of every `x` has the value of the tree. -/
 theorem subst_eval {m : Bool} {e : Ast} (h : Frag m e) {x : Str} {r : Prim} {env : Env}
-    (hr0 : ∀ sp, r ≠ .int sp i64Min) (hr : evalSpecPrim r env = resolveIdent env x) :
-    evalSpec (substIdent x r e) env = evalSpec e env := by
+    (hr0 : ∀ sp, r ≠ .int sp i64Min) (hr : evalSpecPrim B r env = resolveIdent env x) :
+    evalSpec B (substIdent x r e) env = evalSpec B e env := by
   induction h with
   | null sp sp' => simp [subst_member_nil, substIdentPrim]
   | int sp sp' i => simp [subst_member_nil, substIdentPrim]
@@ -253,7 +256,7 @@ theorem xor_signBit_twice (b : UInt64) : (b ^^^ signBit) ^^^ signBit = b := by
   rw [UInt64.xor_assoc, UInt64.xor_self, UInt64.xor_zero]
 
 /-- The spelling of a literal denotes the literal's value, in every environment. -/
-theorem lit_prim_val (l : Lit) (hl : l.InRange) (sp : Span) (env : Env) : evalSpecPrim (l.prim sp) env = l.val := by
+theorem lit_prim_val (l : Lit) (hl : l.InRange) (sp : Span) (env : Env) : evalSpecPrim B (l.prim sp) env = l.val := by
   cases l with
   | null => simp [Lit.prim, evalSpecPrim, Lit.val]
   | uint n => simp [Lit.prim, evalSpecPrim, Lit.val]
@@ -267,17 +270,17 @@ theorem lit_prim_val (l : Lit) (hl : l.InRange) (sp : Span) (env : Env) : evalSp
     · rename_i hneg
       by_cases hmin : i = i64Min
       · subst hmin
-        simp [evalSpecPrim, evalSpec, negCount, applyN]
+        simp [evalSpecPrim, evalSpec, evalSpecOps, negCount, applyN]
       · have h1 : -i ≠ i64Min := by unfold i64Min at *; omega
         have h2 : inI64 i = true := by
           have := hl; simp only [Lit.InRange] at this
           simp [inI64, this.1, this.2]
-        simp [hmin, evalSpecPrim, evalSpec, negCount, h1, applyN, neg, narrowI, h2]
+        simp [hmin, evalSpecPrim, evalSpec, evalSpecOps, negCount, h1, applyN, neg, narrowI, h2]
   | float b =>
     simp only [Lit.prim, Lit.val]
     split
     · simp [evalSpecPrim]
-    · simp [evalSpecPrim, evalSpec, negCount, applyN, neg, F.neg]
+    · simp [evalSpecPrim, evalSpec, evalSpecOps, negCount, applyN, neg, F.neg]
       exact xor_signBit_twice b
 
 theorem lit_prim_ne_min (l : Lit) (sp sp' : Span) : l.prim sp ≠ .int sp' i64Min := by
